@@ -215,9 +215,11 @@ func (r *EBSPReader) MoreRbspData() (bool, error) {
 }
 
 // reset resets EBSPReader based on copy of previous state.
+// The seek is relative to the current position (r.pos counts every byte read from rd),
+// so the underlying ReadSeeker need not have been at offset 0 when the EBSPReader was created.
 func (r *EBSPReader) reset(prevState EBSPReader) error {
 	rdSeek, _ := r.rd.(io.ReadSeeker)
-	_, err := rdSeek.Seek(int64(prevState.pos+1), 0)
+	_, err := rdSeek.Seek(int64(prevState.pos-r.pos), io.SeekCurrent)
 	if err != nil {
 		return err
 	}
